@@ -270,8 +270,9 @@ def minimise_and_write(prop, fam, seed, tier, v, out):
     except Exception as e:
         print("  (minimisation failed: %s; writing the unminimised scenario)" % e, file=out)
         small, v2, stats = scn, v, {"tried": 0, "accepted": 0}
-    os.makedirs(os.path.join(VERIF_DIR, "replays"), exist_ok=True)
-    path = os.path.join(VERIF_DIR, "replays", "%s-%s-%d-%s.json" % (prop, fam, seed, v["cls"]))
+    rdir = os.environ.get("VERIF_REPLAY_DIR", os.path.join(VERIF_DIR, "replays"))
+    os.makedirs(rdir, exist_ok=True)
+    path = os.path.join(rdir, "%s-%s-%d-%s.json" % (prop, fam, seed, v["cls"]))
     doc = {"property": prop, "family": fam, "seed": seed, "tier": tier, "violation": v2, "original_violation": v,
            "shrink": stats, "scenario": small,
            "replay": "cd /verif && ./verif replay %s" % path}
@@ -401,8 +402,9 @@ def write_evidence(spec, tier, base_seed, results, wall, n_viol, det_pairs, know
     except jsonschema.ValidationError as e:
         # a run too small to have two distinct non-trivial cases is not valid evidence; say so
         print("EVIDENCE-INVALID: %s" % e.message, flush=True)
-    os.makedirs(os.path.join(VERIF_DIR, "evidence"), exist_ok=True)
-    p = os.path.join(VERIF_DIR, "evidence", "%s.json" % spec["prop"])
+    edir = os.environ.get("VERIF_EVIDENCE_DIR", os.path.join(VERIF_DIR, "evidence"))
+    os.makedirs(edir, exist_ok=True)
+    p = os.path.join(edir, "%s.json" % spec["prop"])
     with open(p + ".tmp", "w") as f:
         json.dump(ev, f, indent=1)
     os.replace(p + ".tmp", p)
